@@ -12,7 +12,7 @@ def prop(pid, technique, text, note, design, engine="adfmc", implemented=True):
 ORACLE = "Trusted: the reference model in adfmc/src/oracle.rs (truth tables, brute force over all 2^n / 3^n interpretations) and the Rust compiler; bound: the named finite families (<= 5 statements), nothing is sampled."
 
 prop("C01", "exhaustive enumeration of complete ADF families on the real back-ends vs. brute-force least fixpoint",
-     "Every ADF of the complete families A(1), A(2) (all writer tuples), F(3,2), F(4,1), their presented variants (ac facts permuted against the statements, labels both sortings reorder, sorting applied), all formulas of depth <= 2, one residue class of A(3) and of F(4,2), and residue classes of the ring families R(6), R(7), R(8) (6-8 statements, oracle from the formulas by brute force over all 3^n interpretations) (thorough: all 2^24 ADFs of A(3), F(5,1), F(4,2), all of R(6), formulas with <= 7 nodes) is built on native, biodivine, hybrid(+/- pre-grounding) and bridged back-ends; each grounded vector is compared with the least fixpoint computed from the definition; plus the CLI flag of the semantics x 3 modes x 3 sortings on label-sensitive files. Small-scope exhaustive: no ADF inside the bound can violate the property unnoticed.",
+     "Every ADF of the complete families A(1), A(2) (all writer tuples), F(3,2), F(4,1), their presented variants (ac facts permuted against the statements, labels both sortings reorder, sorting applied), all formulas of depth <= 2, one residue class of A(3) and of F(4,2), and residue classes of the ring families R(6), R(7), R(8) (6-8 statements, oracle from the formulas by brute force over all 3^n interpretations) (thorough: all 2^24 ADFs of A(3), F(5,1), F(4,2), all of R(6), formulas with <= 7 nodes) is built on native, biodivine, hybrid(+/- pre-grounding) and bridged back-ends; each grounded vector is compared with the least fixpoint computed from the definition; plus the CLI flag of the semantics x 3 modes x 3 sortings on label-sensitive files. Small-scope exhaustive: no ADF inside the bound can violate the property unnoticed. Round 2-4 additions: the ADF without statements A(0); sparse ADFs of 70-270 statements; labels that spell formulas; literally written conditions Lit(3) incl. negation chains; objects whose listener has gone away; second instantiations from a re-sorted parser; a repetition of the small families with a logger at level TRACE installed.",
      ORACLE, "DESIGN.md 4 C01")
 prop("C02", "exhaustive enumeration of complete ADF families; complete() multiset vs. all 3^n fixpoints of Gamma",
      "Same families and CLI clause (--com); the list returned by complete() on every back-end is compared as a multiset with {v | Gamma(v)=v} enumerated over all 3^n interpretations; the first element must be the grounded interpretation.",
@@ -39,43 +39,43 @@ prop("C08", "exhaustive enumeration of the documented language up to bounds (for
      "Accept side: every formula of depth <= 2 (thorough: <= 7 nodes), 40 formulas x all ordered pairs of 27 label spellings, x all 64 layouts, all fact orders: accepted, labels verbatim in first-declaration order, ac_at equals the expected AST, the native diagram denotes the written function. Reject side: every bracket/terminator/arity/trailing-garbage mutant of every accepted text that an independent blank-permissive recogniser rejects must give Err without panic; the CLI (3 modes) must exit non-zero with empty stdout on a slice of them.",
      "Trusted: the formula evaluator and the independent recogniser of the documented grammar (adfmc/src/c08.rs), which is deliberately permissive so that only definitely-invalid texts are asserted. The web clause of the property is exercised in C16.", "DESIGN.md 4 C08")
 prop("C09", "per-program validation with complete enumeration of each condition's assignment space (all small programs of the families + a deterministic family of large ADFs)",
-     "Every program (all formulas of depth <= 2 as small ADFs, A(2) x all writers, F(3,2), 54 large ADFs with 12-48 statements in quick / 540 in thorough) x 3 sortings is compiled natively, bridged, and bridged after pre-grounding; each statement's stored handle is walked through the public node table for EVERY assignment of the condition's syntactic support (<= 1024) and compared with the written formula (pre-grounded: with the definitional grounded values substituted); reachable variables lie in the support; store structurally canonical.",
+     "Every program (all formulas of depth <= 2 as small ADFs, A(2) x all writers, F(3,2), 54 large ADFs with 12-48 statements in quick / 540 in thorough) x 3 sortings (and once more after re-sorting the same parser object) is compiled natively, bridged, and bridged after pre-grounding; each statement's stored handle is walked through the public node table for EVERY assignment of the condition's syntactic support (<= 1024) and compared with the written formula (pre-grounded: with the definitional grounded values substituted); reachable variables lie in the support; store structurally canonical.",
      "Trusted: the formula evaluator and the large-ADF three-valued oracle (validity by enumeration of each support, adfmc/src/large.rs).", "DESIGN.md 4 C09")
 prop("C10", "metamorphic exploration: exhaustive enumeration of presentations (fact permutations x sortings x renamings x layouts) on all back-ends, answers read label by label",
-     "A(2) x all 24 fact orders x 3 sortings x 6 renamings x 2 layouts; F(3,1) x all 720 orders; F(3,2) x fixed orders; large ADFs x 14 orders x 3 sortings; native, biodivine, hybrid. Grounded and the multisets of complete / stable / two-valued models as maps label -> T/F/u equal the definition (small) or the first presentation (large); after varsort_lexi labels are byte-wise sorted and the dictionary agrees.",
+     "A(2) x all 24 fact orders x 3 sortings x 9 renamings (incl. escape images, prefixes / case variants, labels that read like formulas) x 2 layouts; Lit(3) x 4 orders x 3 sortings x 4 renamings; F(3,1) x all 720 orders; F(3,2) x fixed orders; large ADFs x 14 orders x 3 sortings; native, biodivine, hybrid. Grounded and the multisets of complete / stable / two-valued models as maps label -> T/F/u equal the definition (small) or the first presentation (large); after varsort_lexi labels are byte-wise sorted and the dictionary agrees.",
      ORACLE + " Large instances: complete models only when <= 5 statements stay undecided, stable/two-valued when <= 9.", "DESIGN.md 4 C10")
 prop("C11", "explicit-state search over the store with a memo-table audit on every transition + enumeration of ALL public call sequences up to length 3 on one Adf object, each replayed twice",
-     "Store: every ite/restrict memo entry, variable list and cached count is recomputed from the node table on every transition of the breadth-first search (depth 6 / 5; a second search keyed by node table + memo tables). ADF objects: for every ADF of A(2) and F(3,1), every sequence over a 15-call alphabet (all semantics, counting, nogood search with four heuristics incl. seeded Rand, formula building, restriction) up to length 3 (bridged: 2; a class of F(3,2): 2; thorough 4/3): last answer = fresh object's answer, earlier answers still read the same, memo tables right, and a second run on a fresh object reproduces raw answers and node table. Mid-size objects: residue classes of the ring families R(6), R(7) (length <= 2) and sparse ADFs of 70-270 statements (length <= 1), handles identified by structural signatures.",
+     "Store: every ite/restrict memo entry, variable list and cached count is recomputed from the node table on every transition of the breadth-first search (depth 6 / 5; a second search keyed by node table + memo tables). ADF objects: for every ADF of A(2) and F(3,1), every sequence over a 15-call alphabet (all semantics, counting, nogood search with four heuristics incl. seeded Rand, formula building, restriction) up to length 3 (bridged: 2; a class of F(3,2): 2; thorough 4/3): last answer = fresh object's answer, earlier answers still read the same, memo tables right, and a second run on a fresh object reproduces raw answers and node table. Extended alphabet (abandoned enumerations, fix_import() on a live object) in all sequences that contain one of them; seeded Rand search around the repair step; a store whose listener has gone away. Mid-size objects: residue classes of the ring families R(6), R(7) (length <= 2) and sparse ADFs of 70-270 statements (length <= 1), handles identified by structural signatures.",
      STORE + " Model lists are compared with the fresh object's element by element in the order produced.", "DESIGN.md 4 C11")
 prop("C12", "the same exhaustive battery compiled and run under every cargo feature combination, each against the definitional oracle",
-     "The harness is built against the library under default + 4 corner feature sets (thorough: all 12); each build runs all semantics on A(2), F(3,1) and a residue class of F(3,2), every query on every node of every function of <= 3 variables (4: strided), each query also as the first query on a never-counted and a freshly restricted diagram followed by the whole battery on every node (and again after building on top), deep chains and a re-import sweep, a store exploration with all invariants incl. serde re-import, persistence round trips and all call histories of length <= 2 on A(2). No build may deviate from the oracle; case counts must agree; the documented memoised-model-count exception is masked by name.",
+     "The harness is built against the library under default + 4 corner feature sets (thorough: all 12); each build runs all semantics on A(2), F(3,1) and a residue class of F(3,2), every query on every node of every function of <= 3 variables (4: strided), each query also as the first query on a never-counted and a freshly restricted diagram followed by the whole battery on every node (and again after building on top), deep chains and a re-import sweep, a store exploration with all invariants incl. serde re-import, persistence round trips and all call histories of length <= 2 on A(2). The CLI binary is built under the same feature sets and run directly and through --export / --import; raw answers of derived queries (facet counts, impact measures) are hashed and compared between builds. No build may deviate from the oracle; case counts must agree; the documented memoised-model-count exception is masked by name.",
      ORACLE, "DESIGN.md 4 C12")
 prop("C13", "exhaustive enumeration of all Boolean functions of <= 4 variables + store exploration; every public query against independent recounts",
-     "All 65536 functions of 4 variables (and fewer), two writers, every node: paths, models (naive; memoised where documented), max_depth, var_dependencies vs. independent recounts; interpretations() cubes for both goals and every goal variable (disjoint, consistent, exact cover); the store exploration with the same queries in every state; impact measures, formulacounts, facet_count on the term lists of A(2) and F(3,2); more_models/minimum on [0,16]^2; adf-bdd --counter nai on A(2). The same functions in stores that stream their nodes (receiver alive / gone). Deep diagrams: 8 formula shapes x sizes up to 64 variables x 3 kinds of store, the diagram compared with a reference BDD package and every node queried against values recomputed from the node table (exact u128 model counts, structural cube cover); ADFs with wide conditions incl. the CLI counter. Diagrams of 65-100 levels are queried too: known finding K3 (model counts overflow the machine word).",
+     "All 65536 functions of 4 variables (and fewer), two writers, every node: paths, models (naive; memoised where documented), max_depth, var_dependencies vs. independent recounts; interpretations() cubes for both goals and every goal variable (disjoint, consistent, exact cover); the store exploration with the same queries in every state; impact measures, formulacounts, facet_count on the term lists of A(2) and F(3,2); more_models/minimum on [0,16]^2; adf-bdd --counter nai on A(2). The same functions in stores that stream their nodes (receiver alive / gone). Deep diagrams: 8 formula shapes x sizes up to 64 variables x 3 kinds of store, the diagram compared with a reference BDD package and every node queried against values recomputed from the node table (exact u128 model counts, structural cube cover); ADFs with wide conditions incl. the CLI counter. The list arguments of interpretations(); trace-logging repetition. Diagrams of 65-100 levels are queried too: known finding K3 (model counts overflow the machine word).",
      "Trusted: path / depth / support recounts from the public node table (adfmc/src/bddx.rs). Cubes on non-constant diagrams only (pinned by the repository's own unit test).", "DESIGN.md 4 C13")
 prop("C14", "explicit-state: every ADF object state (input x back-end x call history up to length 2) x both round trips, answers of the re-imported object vs. definition; CLI export/import runs",
-     "Objects (native, bridged) of A(2), F(3,1) after every call sequence of length <= 2 and F(3,2) after length <= 1: serde JSON + fix_import and the string-encoded node list / ordering / roots of the web service's database layer rebuilt through Bdd::from and Adf::from: identical node table, roots, ordering; re-imported store satisfies canonicity, memo and query invariants; all semantics of the re-imported object equal the definition. CLI --export then --import with each flag on all of A(2); existing file / empty file / symlink / directory targets untouched, also when the target appears while the CLI is blocked reading its input (the input is a FIFO fed by the harness). Objects whose shared dictionary grew after construction; objects at scale (sparse 70-270 statements, rings, a 2^17-node bridged diagram) in child processes.",
+     "Objects (native, bridged) of A(2), F(3,1) after every call sequence of length <= 2 and F(3,2) after length <= 1: serde JSON + fix_import and the string-encoded node list / ordering / roots of the web service's database layer rebuilt through Bdd::from and Adf::from: identical node table, roots, ordering; re-imported store satisfies canonicity, memo and query invariants; all semantics of the re-imported object equal the definition. CLI --export then --import with each flag on all of A(2); existing file / empty file / symlink / directory targets untouched, also when the target appears while the CLI is blocked reading its input (the input is a FIFO fed by the harness). Objects whose shared dictionary grew after construction; objects at scale (sparse 70-270 statements, rings, a 2^17-node bridged diagram, diagrams of 40-70 levels: K3) in child processes; a fresh export into a directory with files named like scratch files of the target (listing and contents unchanged); the restored object answers in the original's order.",
      ORACLE, "DESIGN.md 4 C14")
 prop("C15", "exhaustive enumeration of CLI configurations (inputs x library modes x sortings x flag subsets x heuristics) on the binary built from the working tree",
-     "59k process runs (quick): A(2) x 3 modes x 3 sortings x every flag; F(3,1) x flag pairs; fixed files x all 1024 flag subsets; --heu x 4 values; larger inputs (ring ADFs of 6-8 statements, sparse ADFs of 70/130/270 statements with undecided statements beyond positions 63 and 255) x 3 modes x 3 sortings; malformed inputs. Exit status, line format, label set and order, grounded first, complete section, and the remaining multiset = a x stable + b x two-valued with a, b between 'flags the mode must honour' and 'flags given'.",
+     "59k process runs (quick): A(2) x 3 modes x 3 sortings x every flag; F(3,1) x flag pairs; fixed files x all 1024 flag subsets; --heu x 4 values; larger inputs (ring ADFs of 6-8 statements, sparse ADFs of 70/130/270 statements with undecided statements beyond positions 63 and 255) x 3 modes x 3 sortings; every verbosity setting; --export in the same run; malformed inputs incl. conditions for undeclared statements. Exit status, line format, label set and order, grounded first, complete section, and the remaining multiset = a x stable + b x two-valued with a, b between 'flags the mode must honour' and 'flags given'.",
      ORACLE + " Support matrix: naive must honour grd/com/stm/stmng, biodivine grd/com/stm/stmrew/stmrew2, hybrid all; other pairs may print nothing or the right section.", "DESIGN.md 4 C15")
 prop("C18", "explicit-state exploration of the real NoGoodStore: all add sequences x modes x all partial interpretations vs. brute force",
-     "Every sequence of up to 3 adds (a mode per add for length <= 2, one mode per sequence for length 3; thorough: V=4) over 3 variables; in each store conclusions() and the conclusion closure for all 3^V interpretations: concluded literals forced, conflict only if no extension avoids all added nogoods, always when the interpretation matches one, decided positions unchanged, closure is a fixpoint; pairwise NoGood operations. The same exploration with the three variables embedded at positions around 64 / 128 / 65536 of long interpretations; long histories (12 variables, about 2600 - thorough 4095 - nogoods of one size per mode, every total assignment queried).",
+     "Every sequence of up to 3 adds (a mode per add for length <= 2, one mode per sequence for length 3; thorough: V=4) over 3 variables; in each store conclusions() and the conclusion closure for all 3^V interpretations: concluded literals forced, conflict only if no extension avoids all added nogoods, always when the interpretation matches one, decided positions unchanged, closure is a fixpoint; pairwise NoGood operations. The same exploration with the three variables embedded at positions around 64 / 128 / 65536 of long interpretations; long histories (12 variables, about 2600 - thorough 4095 - nogoods of one size per mode, every total assignment queried); the empty nogood; repeated nogoods with a final mode switch; results handed back to the store.",
      "Trusted: brute force over the 2^V total assignments (adfmc/src/c18.rs).", "DESIGN.md 4 C18")
 prop("C19", "controlled-scheduler exploration: every placement of receiver polls between individual node creations x every requested handle, on the real Bdd objects and channels",
-     "86 producer programs (all operation sequences of length <= 3 over 3 variables creating nodes, deduplicated, + the pinned ones) x all placements of <= 3 polls x all handles (1.1M schedules); a threaded rendezvous scheduler that blocks the real producer thread inside Bdd::node at every node (25k schedules) must observe the same outcomes as the sequential scheduler; chains producer -> relay -> end with every order of deliveries and polls, also with the end of the chain going away at every point; producers whose receiver goes away after every number of operations; long streams (> 2^16 messages, polls around message 65536) in a child process. Prefix property after every poll, found iff present, never 'not found' for a delivered handle, identical tables after draining.",
+     "86 producer programs (all operation sequences of length <= 3 over 3 variables creating nodes, deduplicated, + the pinned ones) x all placements of <= 3 polls x all handles (1.1M schedules); a threaded rendezvous scheduler that blocks the real producer thread inside Bdd::node at every node (25k schedules) must observe the same outcomes as the sequential scheduler; chains producer -> relay -> end with every order of deliveries and polls, also with the end of the chain going away at every point; producers whose receiver goes away after every number of operations; long streams (> 2^16 messages, polls around message 65536) in a child process; stores made with new + set_sender / set_receiver; chains wired up late; both ends re-wired to a fresh channel at every operation boundary. Prefix property after every poll, found iff present, never 'not found' for a delivered handle, identical tables after draining.",
      "Trusted: crossbeam channels are FIFO; producer and receiver share nothing else, so polls between message deliveries are all receiver-visible schedules. Memory-level interleavings inside one channel operation are not modelled.", "DESIGN.md 4 C19")
 prop("C20", "exhaustive enumeration of all interpretation vectors up to length 7 (thorough 9)",
-     "All 21845 vectors over {false, true, Term(2), Term(12)} of length <= 7: both public iterators collected and compared as multisets with the 2^k completions / 3^k refinements, first three-valued item = input; exhausted iterators stay exhausted. Long vectors (up to 70000 entries, undecided positions at 63/64/65, 255/256, 65535/65536) and prefixes of the enumeration for 20-70 undecided positions.",
+     "All 21845 vectors over {false, true, Term(2), Term(12)} of length <= 7: both public iterators collected and compared as multisets with the 2^k completions / 3^k refinements, first three-valued item = input; exhausted iterators stay exhausted. Long vectors (up to 70000 entries, undecided positions at 63/64/65, 255/256, 65535/65536) and prefixes of the enumeration for 20-70 undecided positions; iterator adaptors (nth, count, last, skip, step_by, fold, ...) agree with plain next from every number of items taken; repetition with a TRACE logger.",
      "Trusted: the independent enumeration of completions/refinements (adfmc/src/c20.rs).", "DESIGN.md 4 C20")
 
 SRV = "Trusted: the in-harness MongoDB stub's semantics for the six commands the server uses (equality filters, $set with dotted paths, replacement keeping _id, unique index on insert and update, n/nModified) - the environment model; the Python copy of the definitional oracle (srvmc/harness.py). Timing (the 120 s compute time-out) and memory-level races inside one handler are not explored."
 
 prop("C16", "explicit-state search on the real server binary over a MongoDB wire-protocol stub that captures the background result writes as explicit events",
-     "Every ADF of A(1) and A(2) (thorough: + F(3,1)) x both parsing strategies is submitted over HTTP; six strategies in rotated order with GETs after the computation ended but before its result is stored and after; for 8 codes (thorough: all of A(2)) a breadth-first search over the whole lattice of solved-strategy subsets (64 states / 192 transitions each, restored from database snapshots); every stored result = definitional answer as multiset; every graph: node set = closure of the roots, one lo/hi edge per decision node, walking from the root label of s under every assignment consistent with the shown model evaluates s's condition; unparseable and ill-formed codes end as Error and are never solved; running_tasks empty whenever every task has ended; label-variety and 12-statement codes; a second user asking while a long computation runs must not see that task. 22k requests in the quick tier.",
+     "Every ADF of A(1) and A(2) (thorough: + F(3,1)) x both parsing strategies is submitted over HTTP; six strategies in rotated order with GETs after the computation ended but before its result is stored and after; for 8 codes (thorough: all of A(2)) a breadth-first search over the whole lattice of solved-strategy subsets (64 states / 192 transitions each, restored from database snapshots); every stored result = definitional answer as multiset; every graph: node set = closure of the roots, one lo/hi edge per decision node, walking from the root label of s under every assignment consistent with the shown model evaluates s's condition; unparseable and ill-formed codes end as Error and are never solved; running_tasks empty whenever every task has ended; label-variety and 12-statement codes; a second user asking while a long computation runs must not see that task (also when the joined account / problem names of the two coincide); a problem name used again after deletion, also with a result write of the deleted problem still on its way. 22k requests in the quick tier.",
      SRV, "DESIGN.md 4 C16", engine="srvmc")
 prop("C17", "explicit-state BFS over request histories of two clients (snapshot/restore, deferrable background writes) + controlled-scheduler exploration of all database-command interleavings of concurrent requests, on the real server binary",
-     "E1: breadth-first search to depth 3 from the empty service and depth 2-3 from four seeds over an alphabet of 33 requests per client (register/login/update incl. the other's and a shared name, logout, info, delete-account, add with and without session, solve, get, list, delete, unauthenticated variants) plus 'apply pending background write'; E2: for 140 (request, request sequence) pairs every interleaving of their database commands with <= 1 preemption (thorough 3), each replayed from a seed snapshot under a scheduler that parks every command. After every transition: no foreign marker in a response, foreign documents byte-identical, unauthenticated requests refused, login succeeds iff the password is the one last set, credentials are salted argon2 hashes and never plaintext, account names unique, and alone-equivalence (differential: the client's projected history re-executed alone, memoised). E3: the other client asks while a long computation runs (window observed through the stub). Passwords are 80/81 bytes long and share their first 72 bytes; E2 includes concurrent registrations of one fresh name.",
+     "E1: breadth-first search to depth 3 from the empty service and depth 2-3 from four seeds over an alphabet of 33 requests per client (register/login/update incl. the other's and a shared name, logout, info, delete-account, add with and without session, solve, get, list, delete, unauthenticated variants) plus 'apply pending background write'; E2: for 140 (request, request sequence) pairs every interleaving of their database commands with <= 1 preemption (thorough 3), each replayed from a seed snapshot under a scheduler that parks every command. After every transition: no foreign marker in a response, foreign documents byte-identical, unauthenticated requests refused, login succeeds iff the password is the one last set, credentials are salted argon2 hashes and never plaintext, account names unique, and alone-equivalence (differential: the client's projected history re-executed alone, memoised). E3: the other client asks while a long computation runs (window observed through the stub). Passwords are 80/81 bytes long and share their first 72 bytes; E2 includes concurrent registrations of one fresh name. Login with the name of a temporary account is part of the alphabet.",
      SRV + " Clients never share passwords, so every cross-account access is illegitimate. Known finding K1 (mutable account name as key) is matched on the hand-over pattern in the history, not on the clause.", "DESIGN.md 4 C17", engine="srvmc")
 
 
